@@ -32,6 +32,10 @@ CHECKS = {
   text="Spellings (structured JSON texts) carry both their byte text and their denotation in spec/JSONEqual.tla (numbers as exact decimals on digit sequences); TLC checks over all 47 961 ordered pairs of a 219-spelling domain that the transcription of json/equal.go equals semantic equality and is reflexive and symmetric, and judges every observed json.Equal(a,b)/(b,a)/(a,a) result and the schema parser's duplicate-enum verdict for every enumerated pair, for seeded random values spelled twice plus one-leaf mutants, and for malformed byte-mutants (never true).",
   note="Bounded value depth 2 (enumerated) / 3 (random); exponents within +-400; for texts with repeated member names only symmetry/reflexivity are demanded (denotation last-wins is drift-only); malformedness of mutants is an environment fact from encoding/json.Valid. Trusted: TLC, Json module, the Go renderer for random spellings (re-checked by TLC: Text(sp) = text).",
   tech=TECH+"TLC-enumerated replay into json.Equal and jsonschema enum parsing with TLC-evaluated observation check"),
+ "C20": dict(cat="fault_enumeration", ref="DESIGN.md §5 C20",
+  text="spec/GenCLI.tla models cmd/ogen/main.go as a stage machine with a fault point (flag, missing spec argument, config missing/invalid/unknown field, spec missing/malformed/invalid, not-implemented feature, route conflict, --version, none), --clean, and an initial target directory drawn from 14 name classes (own files incl. read-only and one the generator rewrites, look-alike user files, directories with a matching name, nested files). TLC checks G1-G5 and that every event sequence is accepted by the trace acceptor. Every TLC-enumerated scenario is materialised and the unmodified cmd/ogen binary built from /repo is run under strace -f; successful mkdir/unlink/rmdir/creating-open/rename/chmod calls under the target become events, names/modes/sha256 are snapshotted before and after, and TLC validates each scenario (events, exit code, snapshot): a pre-write failure must show no mutating syscall at all, a successful run may unlink only own top-level files and only with --clean, never writes over or below user entries.",
+  note="Failures during writing (disk full, read-only target) are outside the statement and not injected; runs are as root, so permission bits do not restrict the binary. Trusted: strace's syscall report, TLC, Json module, the 1-line own-name regexp used to tag created names.",
+  tech="explicit TLA+ machine + acceptor; TLC exhaustive check; TLC-enumerated fault scenarios replayed into the real binary under strace with TLC trace validation"),
 }
 NA = [
  ("C13", "pure numeric/text codec fidelity of single strconv/time calls: no state or transitions to specify, TLC has no floats and 32-bit integers (DESIGN.md §6)"),
